@@ -66,6 +66,7 @@ type Run struct {
 	ReplayDir string
 	Replay    string // when set: replay exactly this file and print both observables
 	VerifDir  string // /verif (for corpus/ and findings/)
+	MaxPerKey int    // violations kept per (kind, finding key); default 3
 	Rand      *Rand
 
 	res      Result
@@ -79,7 +80,7 @@ type Run struct {
 
 // Init parses the standard flags. Every harness binary calls it first.
 func Init(property string) *Run {
-	r := &Run{Property: property, seen: map[string]bool{}, perKey: map[string]int{}, obIndex: map[string]int{}, maxSamp: 6}
+	r := &Run{Property: property, seen: map[string]bool{}, perKey: map[string]int{}, obIndex: map[string]int{}, maxSamp: 6, MaxPerKey: 3}
 	flag.StringVar(&r.Tier, "tier", "quick", "quick | thorough")
 	flag.Int64Var(&r.Seed, "seed", 1, "PRNG seed (VERIF_SEED)")
 	flag.StringVar(&r.ModelPath, "model", "", "path of the compiled Lean model driver")
@@ -177,7 +178,7 @@ func (r *Run) Oblige(name, kind string, cases int, ok bool, detail string) {
 func (r *Run) Violate(kind, what, findingKey string, noFailingInput bool, replay any) {
 	ck := "violation:" + kind + ":" + findingKey
 	r.res.Distribution[ck]++
-	if r.perKey[ck] >= 3 {
+	if r.perKey[ck] >= r.MaxPerKey {
 		return
 	}
 	r.perKey[ck]++
